@@ -382,24 +382,39 @@ example : (Tab.ket1 2).pivot 0 = none ∧ (Tab.ket1 2).isSymplectic = true ∧ s
 
 /-! ### 4b.6 reset -/
 
-/-- **`reset_z(q, intended)`**:
+/-- **`reset_z(q, intended)`** is "Z-measure `q` (outcome `o` when random), then apply `X_q` iff the outcome is not `intended`":
     (a) afterwards `(-1)^intended Z_q` is in the group;
-    (b) random case (qubit entangled / not in a Z eigenstate): the result is the measurement branch `outcome = intended` — the
-        drawn / forced outcome `o` is discarded, no conditional `X` is applied;
+    (b) random case (qubit entangled / not in a Z eigenstate): the result is the measurement branch of the drawn / forced
+        outcome `o` — unchanged when `o = intended`, conjugated by `X_q` otherwise (the qubits entangled with `q` collapse to
+        the branch of `o`, not of `intended`);
     (c) deterministic case: unchanged if `(-1)^intended Z_q` was in the group, otherwise the image under `X_q`;
-    (d) in every case, on the rows acting as the identity on `q` the result agrees with the Z measurement with outcome
-        `intended` (measurement + conditional `X`, the `X` being invisible on those rows) -/
+    (d) in every case, on the rows with no `Z` on `q` the result agrees with the Z measurement with outcome `o`
+        (the conditional `X` is invisible on those rows);
+    (e) as tables: the result IS the measured tableau, resp. its image under `x_gate` -/
 theorem reset_spec (t : Tab) (q : Nat) (i o : Bool) (hq : q < t.n) (hv : t.Valid) (hr : t.StabReal) :
     Grp (t.resetZ q i o) (Zq q i) ∧
     (∀ p, t.pivot q = some p →
-      ∀ P, Grp (t.resetZ q i o) P ↔ (P.x q = false ∧ (Grp t P ∨ Grp t (PRow.mul t.n P (Zq q i))))) ∧
+      (o = i → ∀ P, Grp (t.resetZ q i o) P ↔ (P.x q = false ∧ (Grp t P ∨ Grp t (PRow.mul t.n P (Zq q o))))) ∧
+      (o ≠ i → ∀ P, Grp (t.resetZ q i o) P ↔
+        ∃ Q, (Q.x q = false ∧ (Grp t Q ∨ Grp t (PRow.mul t.n Q (Zq q o)))) ∧ EqOn t.n P (PRow.xg q Q))) ∧
     (t.pivot q = none →
       (Grp t (Zq q i) → t.resetZ q i o = t) ∧
       (Grp t (Zq q (!i)) → ∀ P, Grp (t.resetZ q i o) P ↔ ∃ Q, Grp t Q ∧ EqOn t.n P (PRow.xg q Q))) ∧
-    (∀ P, P.x q = false → P.z q = false → (Grp (t.resetZ q i o) P ↔ Grp (t.zMeasure q i).1 P)) := by
-  refine ⟨resetZ_has_Zq t q i o hq hv hr, ?_, ?_, fun P hx hz => resetZ_other_qubits t q i o hq hv hr P hx hz⟩
-  · intro p hp P
-    rw [resetZ_random_grp t q p i o hr hq hp, measRandom_grp t q p i hv hr hq hp]
+    (∀ P, P.z q = false → (Grp (t.resetZ q i o) P ↔ Grp (t.zMeasure q o).1 P)) ∧
+    t.resetZ q i o = (if (t.zMeasure q o).2.1 = i then (t.zMeasure q o).1 else (t.zMeasure q o).1.xGate q) := by
+  refine ⟨resetZ_has_Zq t q i o hq hv hr, ?_, ?_, fun P hz => resetZ_other_qubits t q i o hq hr P hz,
+    resetZ_eq t q i o hr⟩
+  · intro p hp
+    constructor
+    · intro e P
+      rw [resetZ_random_eq t q p i o hr hp, if_pos e, measRandom_grp t q p o hv hr hq hp]
+    · intro e P
+      rw [resetZ_random_eq t q p i o hr hp, if_neg e]
+      show Grp ((t.measRandom q p o).map (PRow.xg q)) P ↔ _
+      rw [map_grp (t.measRandom q p o) _ (isAut1_xg t.n q hq)]
+      constructor
+      · rintro ⟨Q, hQ, h⟩; exact ⟨Q, (measRandom_grp t q p o hv hr hq hp Q).mp hQ, h⟩
+      · rintro ⟨Q, hQ, h⟩; exact ⟨Q, (measRandom_grp t q p o hv hr hq hp Q).mpr hQ, h⟩
   · intro hp
     constructor
     · intro hz
@@ -410,27 +425,37 @@ theorem reset_spec (t : Tab) (q : Nat) (i o : Bool) (hq : q < t.n) (hv : t.Valid
       rw [resetZ_det_eq t q i o hp, if_neg hne]
       exact map_grp t _ (isAut1_xg t.n q hq) P
 
-/-- the entangled-qubit case of `reset_spec` on the Bell pair: whatever outcome is drawn, both qubits end in `|intended⟩` -/
-example (o : Bool) : Grp (bell.resetZ 1 true o) (Zq 0 true) := by
-  have h := (reset_spec bell 1 true o (by decide) bell_valid bell_real).2.1 2 (by decide) (Zq 0 true)
-  refine h.mpr ⟨rfl, Or.inr ?_⟩
-  exact InSpan.eqv _ _ (grp_gen bell 1 (by decide)) (eqOn_check 2 _ _ (by decide))
+/-- the entangled-qubit case of `reset_spec` on the Bell pair: the partner qubit 0 ends in the branch `|o⟩` of the drawn / forced
+    outcome, whatever the intended state of the reset qubit -/
+example (i o : Bool) : Grp (bell.resetZ 1 i o) (Zq 0 o) ∧ Grp (bell.resetZ 1 i o) (Zq 1 i) := by
+  refine ⟨?_, (reset_spec bell 1 i o (by decide) bell_valid bell_real).1⟩
+  rw [(reset_spec bell 1 i o (by decide) bell_valid bell_real).2.2.2.1 (Zq 0 o) rfl,
+    measure_random_group_spec bell 1 2 o bell_valid bell_real (by decide) (by decide)]
+  refine ⟨rfl, Or.inr ?_⟩
+  cases o
+  · exact InSpan.eqv _ _ (grp_gen bell 1 (by decide)) (eqOn_check 2 _ _ (by decide))
+  · exact InSpan.eqv _ _ (grp_gen bell 1 (by decide)) (eqOn_check 2 _ _ (by decide))
 
-/-- witness for (b): in the random branch `reset_z` is NOT "measure with the forced outcome, then flip".  Bell pair, qubit 1,
-    forced outcome 0, intended 1: `reset_z` keeps `+Z_0Z_1` (both qubits end in `|1⟩`), whereas the measurement with outcome 0
-    followed by `X_1` gives `-Z_0Z_1` (qubit 0 stays in `|0⟩`); the two groups differ.  Replayed on the Python API
-    (`handoff/c07.md`; accepted by the property as "a branch of the measurement", DESIGN §0.5). -/
-theorem reset_random_branch_witness :
-    Grp (bell.resetZ 1 true false) (bell.stab 1) ∧
-    Grp ((bell.zMeasure 1 false).1.xGate 1) (negate (bell.stab 1)) ∧
-    ¬ Grp (bell.resetZ 1 true false) (negate (bell.stab 1)) := by
-  have h1 : Grp (bell.resetZ 1 true false) (bell.stab 1) :=
-    InSpan.eqv _ _ (grp_gen (bell.resetZ 1 true false) 1 (by decide)) (eqOn_check 2 _ _ (by decide))
-  refine ⟨h1, ?_, ?_⟩
-  · exact InSpan.eqv _ _ (grp_gen ((bell.zMeasure 1 false).1.xGate 1) 1 (by decide)) (eqOn_check 2 _ _ (by decide))
-  · have hv := resetZ_valid bell 1 true false (by decide) bell_valid
-    have hr := (resetZ_tracks bell 1 true false (by decide) bell_valid bell_real).1
-    exact (stabilizer_group_consistent _ hv hr).cons _ h1
+/-- witness for (b) (the input of the repaired defect D50): Bell pair, `reset_z(qubit 1, intended 0)` with forced outcome 1.
+    The result is `measure(outcome 1)` then `X_1`: generators `+Z_1` and `−Z_0Z_1`, i.e. the state `|1⟩_0 |0⟩_1` — the partner
+    qubit is in the branch of the forced outcome; `+Z_0Z_1` (the `|00⟩` that the code produced before the repair, when it
+    overwrote the sign of the new `Z` generator with `intended`) is NOT in the group. -/
+theorem reset_forced_outcome_witness :
+    Grp (bell.resetZ 1 false true) (Zq 1 false) ∧
+    Grp (bell.resetZ 1 false true) (negate (bell.stab 1)) ∧
+    Grp (bell.resetZ 1 false true) (Zq 0 true) ∧
+    ¬ Grp (bell.resetZ 1 false true) (bell.stab 1) ∧
+    bell.resetZ 1 false true = (bell.zMeasure 1 true).1.xGate 1 := by
+  have g0 : Grp (bell.resetZ 1 false true) (Zq 1 false) :=
+    InSpan.eqv _ _ (grp_gen (bell.resetZ 1 false true) 0 (by decide)) (eqOn_check 2 _ _ (by decide))
+  have g1 : Grp (bell.resetZ 1 false true) (negate (bell.stab 1)) :=
+    InSpan.eqv _ _ (grp_gen (bell.resetZ 1 false true) 1 (by decide)) (eqOn_check 2 _ _ (by decide))
+  refine ⟨g0, g1, ?_, ?_, ?_⟩
+  · exact InSpan.eqv _ _ (InSpan.mul _ _ g0 g1) (eqOn_check 2 _ _ (by decide))
+  · have hv := resetZ_valid bell 1 false true (by decide) bell_valid
+    have hr := (resetZ_tracks bell 1 false true (by decide) bell_valid bell_real).1
+    exact fun h => (stabilizer_group_consistent _ hv hr).cons _ h g1
+  · exact (reset_spec bell 1 false true (by decide) bell_valid bell_real).2.2.2.2
 
 /-! ### 4b.7 removing a qubit -/
 
